@@ -1,5 +1,7 @@
 import DhcpProofs.Lemmas.V6BuildReply
 import DhcpProofs.Lemmas.V6BuildMsg
+import DhcpProofs.Lemmas.V6BuildDecoded
+import DhcpProofs.Lemmas.V6BuildIndex
 /-
   C16 — DHCPv6 builders and relay encapsulation preserve identity and nesting.
   Model: Dhcp/V6/Build.lean (EncapsulateRelay, DecapsulateRelay,
@@ -62,6 +64,36 @@ theorem C16_hop (m : Msg6) (hm : m.isRelay = false) (h : Hdr) (rest : List Hdr)
   simp only [List.length_cons] at hn
   simp only [List.length_cons, Nat.add_sub_cancel]
   exact UInt8.toNat_ofNat_lt (by omega)
+
+/-- **C16 (DecapsulateRelayIndex).** On the n-fold encapsulation `c` of a
+non-relay message: index `k ≥ 0` returns what is left after removing the `k+1`
+outermost levels (the message itself once `k+1 ≥ n`), index `-1` returns the
+innermost RELAY message (one level around the message, not the message), and
+any index below `-1` is an error. -/
+theorem C16_decap_index (m : Msg6) (hm : m.isRelay = false) (h : Hdr) (rest : List Hdr)
+    (ht : ∀ x ∈ h :: rest, isRelayType x.typ = true) :
+    ∃ c, encapAll m (h :: rest) = .ok c ∧
+      (∀ k : Nat, decapsulateRelayIndex c (k : Int) = encapAll m ((h :: rest).drop (k + 1))) ∧
+      decapsulateRelayIndex c (-1) = encapAll m [(h :: rest).getLast (by simp)] ∧
+      (∀ i : Int, i < -1 → decapsulateRelayIndex c i = .err) := by
+  refine ⟨wrapAll m (h :: rest), encapAll_eq_wrapAll m _ ht, ?_, ?_, ?_⟩
+  · intro k
+    have hk : ¬ ((k : Int) < -1) := by omega
+    have hk' : ¬ ((k : Int) = -1) := by omega
+    rw [encapAll_eq_wrapAll m _ (fun x hx => ht x (List.mem_of_mem_drop hx))]
+    simp only [decapsulateRelayIndex, wrapAll_isRelay, hk, hk', Bool.not_true, Bool.false_eq_true,
+      if_false, Int.toNat_natCast]
+    exact decapN_wrapAll m hm (k + 1) (h :: rest)
+  · rw [encapAll_eq_wrapAll m _ (by
+      intro x hx
+      simp only [List.mem_singleton] at hx
+      subst hx
+      exact ht _ (List.getLast_mem _))]
+    simp only [decapsulateRelayIndex, wrapAll_isRelay, Bool.not_true, Bool.false_eq_true, if_false]
+    rw [if_pos True.intro]
+    exact lastRelay_wrapAll m hm rest h _ (by rw [msgDepth_wrapAll m hm]; simp only [List.length_cons]; omega)
+  · intro i hi
+    simp [decapsulateRelayIndex, wrapAll_isRelay, hi]
 
 /-! ### innermost message -/
 
@@ -240,6 +272,16 @@ theorem C16_request_panics (xid axid : Bytes) (os : List Opt6) (cid sid : Opt6)
     newRequestFromAdvertise xid (.msg mtAdvertise axid os) [] = .panic := by
   simp only [newRequestFromAdvertise, hc, hs, oneIANAOf_untyped hty]
   simp
+
+/-- on DECODED messages the request builder never panics: the decoder parses the
+IA_NA code into `*OptIANA` only (`dec6_typed`), so the unchecked assertion holds
+(all byte strings, any user-modifier-free call) -/
+theorem C16_request_decoded (b : Bytes) (adv : Msg6) (xid : Bytes) (h : dec6 b = .ok adv) :
+    newRequestFromAdvertise xid adv [] ≠ .panic := by
+  cases adv with
+  | relay t hc l p os => simp [newRequestFromAdvertise]
+  | msg t x os =>
+    exact (C16_request_rejects xid x t os).2.2.2.2 (IANATyped_of_typed (dec6_typed h))
 
 /-- **C16 (reply).** From REQUEST, CONFIRM, RENEW, REBIND, RELEASE or
 INFORMATION-REQUEST carrying a client id the REPLY keeps the transaction id and
